@@ -113,6 +113,7 @@ type SFRecord struct {
 	// hostile knobs (0: off)
 	CutP1     int    `json:"cut_p1,omitempty"`      // sampled header cut to CutP1-1 octets
 	DeclLenP1 uint32 `json:"decl_len_p1,omitempty"` // declared record length is DeclLenP1-1
+	HdrLenP1  uint32 `json:"hdr_len_p1,omitempty"`  // declared length of the sampled header is HdrLenP1-1
 }
 
 // SFSample is one sample.
@@ -185,7 +186,11 @@ func encRecordSF(r *SFRecord, counter bool) []byte {
 		body = put32(body, r.Raw.Proto)
 		body = put32(body, r.FrameLen)
 		body = put32(body, r.Stripped)
-		body = put32(body, uint32(len(hb)))
+		if r.HdrLenP1 > 0 {
+			body = put32(body, r.HdrLenP1-1)
+		} else {
+			body = put32(body, uint32(len(hb)))
+		}
 		body = append(body, hb...)
 		for len(body)%4 != 0 {
 			body = append(body, 0)
@@ -554,6 +559,12 @@ func GenSFPacket(r *rand.Rand) *SFPacket {
 	switch p.Proto {
 	case 1:
 		p.DstMAC, p.SrcMAC = rndBytes(r, 6), rndBytes(r, 6)
+		if r.Intn(2) == 0 {
+			// the same few stations talk to each other again and again: the same
+			// conversation is sampled on tagged and on untagged ports
+			st := [][]byte{{0x02, 0, 0, 0, 0, 0x01}, {0x02, 0, 0, 0, 0, 0x02}}
+			p.DstMAC, p.SrcMAC = append([]byte(nil), st[r.Intn(2)]...), append([]byte(nil), st[r.Intn(2)]...)
+		}
 		if r.Intn(3) == 0 {
 			p.Vlan = r.Intn(4096) // priority and DEI bits zero (narrow reading, DESIGN.md 9.3)
 		}
